@@ -893,6 +893,24 @@ fn containment(sq: &Sq, out: &SearchOut, census: &Obs) -> Option<String> {
     }
     None
 }
+/// what must agree between two runs of a Search-family call: per request the multiset of scores
+/// and total_found (ids inside an equal-score class may legitimately differ)
+fn search_sig(o: &Obs) -> Vec<(Vec<u32>, u32, String)> {
+    let one = |s: &SearchOut| {
+        let mut v: Vec<u32> = s.hits.iter().map(|h| h.score_bits).collect();
+        v.sort();
+        (v, s.total_found, String::new())
+    };
+    match o {
+        Obs::Search(s) => vec![one(s)],
+        Obs::BulkSearch(rs) => rs.iter().map(|r| match r {
+            Ok(s) => one(s),
+            Err(e) => (vec![], 0, e.clone()),
+        }).collect(),
+        Obs::Err(e) => vec![(vec![], 0, e.clone())],
+        _ => vec![(vec![], 0, "other".into())],
+    }
+}
 fn search_summary(o: &Obs) -> Value {
     match o {
         Obs::Search(s) => json!({"ids": s.hits.iter().map(|h| h.doc_id).collect::<Vec<_>>(), "total_found": s.total_found}),
@@ -986,7 +1004,11 @@ fn evaluate(id: usize, sc: &Script, a: usize, b: usize, tag: &str) -> Result<Out
         if x == y {
             continue;
         }
-        if is_search(&c.op) {
+        if is_search(&c.op) && search_sig(&x) == search_sig(&y) {
+            // same scores and total_found: only the order / choice among equal-distance ties differs
+            // (hash-map and HNSW order; not an isolation matter, sound by oracle 1 + model)
+            known.push(json!({"class": "tie-order-only", "id": id, "call_index": i}));
+        } else if is_search(&c.op) {
             // both answers are individually sound (oracle 1 + model); they differ only because the
             // global candidate cut includes tenant B's documents
             known.push(json!({"class": "C10-search-count-depends-on-other-tenants", "id": id, "call_index": i,
@@ -1130,6 +1152,7 @@ fn main() {
     let mut samples = vec![];
     let mut searches = 0u64;
     let mut searches_exact = 0u64;
+    let mut tie_only = 0u64;
     for (k, r) in results {
         let o = match r {
             Ok(o) => o,
@@ -1190,7 +1213,13 @@ fn main() {
             nontrivial += 1;
         }
         failures.extend(o.failures.iter().cloned());
-        known.extend(o.known.iter().cloned());
+        for kk in o.known.iter() {
+            if kk["class"] == "tie-order-only" {
+                tie_only += 1;
+            } else {
+                known.push(kk.clone());
+            }
+        }
         for (run, sc, obs) in [("full", &o.script, &o.full), ("reduced", &o.reduced_script, &o.reduced)] {
             let cid = case_texts.len();
             let (text, unprintable) = coq_case(cid, sc, obs);
@@ -1227,7 +1256,7 @@ fn main() {
         "coq_cases": case_texts.len(), "case_index": case_index,
         "oracle_failures": failures, "known_class_hits": known, "run_errors": run_errors,
         "distinct": distinct.len(), "nontrivial": nontrivial,
-        "histogram": {"ops": hist, "responses": resp_hist, "search_family_calls": searches, "search_family_calls_in_exact_regime": searches_exact},
+        "histogram": {"ops": hist, "responses": resp_hist, "search_family_calls": searches, "search_family_calls_in_exact_regime": searches_exact, "search_answers_differing_only_in_tie_order_between_runs": tie_only},
         "samples": samples, "avg_server_startup_s": if n_ok > 0 { startup_sum / n_ok as f64 } else { 0.0 },
         "wall_s": t0.elapsed().as_secs_f64(),
     });
